@@ -22,7 +22,7 @@ EXPLANATION = (
 NOT_DECIDED = ["linearity and knot-exactness of scipy.interpolate.interp1d (library)"]
 ASSUMPTIONS = ["interp1d(x, y)(q) with default options is the piecewise-linear interpolant, raising outside [x0, xN]", "numpy basic slices are views"]
 TRUSTED = ["python ast", "sedlint E4/E5", "scipy interp1d defaults"]
-MIN = {'UNIT-2': 3, 'CFG-7': 8, 'UNIT-1': 3, 'AXIS': 3, 'PERM-10': 1}
+MIN = {'UNIT-2': 3, 'CFG-7': 8, 'UNIT-1': 3, 'AXIS': 1, 'PERM-10': 1}       # AXIS: one obligation per interp1d call the code makes, plus the variable-aperture one (a hand-written interpolation has none of the former)
 TECHNIQUE = 'static analysis: AST value numbering with alias tracking of in-place stores and unit tags; uninterpreted linear-interpolation atom'
 
 VOCAB = {'q', 'cap', 'flux', 'err', 'names', 'cw', 'wav', 'fw'}
@@ -160,6 +160,7 @@ def check_cf_interpolate(ctx):
     # single aperture: interpreted with the table holding one aperture; every request (inside, above or below) gets the one tabulated value
     hs = H(single=True)
     Is = Interp(repo, hs)
+    Is.axis_len[A] = 1
     outs = Is.call(fi, [symarr('q', (D,), unit=au)], selfv=mk())
     if not isinstance(outs, Obj):
         ctx.undecided('CFG-7', 'ConvolvedFluxes.interpolate single-aperture repeat', where_, 'result not modelled: %r' % (outs,))
@@ -231,35 +232,20 @@ def variable_reference(k):
     return ref, alg.Facts().assume_le(first(xs_), last(xs_)), (qv, qc_, capn, cap, au)
 
 
-def expand_interp(p, unsorted=None):
-    """np.interp(q, x, y) written as the linear interpolation interp1d does inside the table, with the first / last ordinate (or left= / right=) held beyond
-    its ends: the two spellings of 'held constant beyond the end filters' then have one normal form"""
-    from ..interp import _linear_fn
-    from ..alg import C
+expand_interp = alg.expand_interp
 
-    def f(a):
-        if a[0] == 'fn' and a[1] == 'interp' and len(a) >= 5 and a[2][0] == 'P' and a[3][0] == 'B' and a[4][0] == 'B' and a[3][1] == a[4][1]:
-            q, lab, xp, fp = Poly.from_key(a[2][1]), a[3][1], Poly.from_key(a[3][2]), Poly.from_key(a[4][2])
-            if alg.array_fn('argsort', lab, xp) != Poly.atom(('fn', 'arange', ('L', lab))):
-                # np.interp does not sort: with an abscissa that is not known to increase it is not the interpolation of the table
-                if unsorted is not None:
-                    unsorted.append(xp)
-                return None
-            ends = {'left': mk_fn('at', B(lab, fp), P(Poly())), 'right': mk_fn('at', B(lab, fp), P(Poly.const(-1)))}
-            for x in a[5:]:
-                if x[0] != 'C' or '=' not in x[1]:
-                    return None
-                k_, v_ = x[1].split('=', 1)
-                try:
-                    ends[k_] = Poly.const(Fraction(v_))
-                except (ValueError, ZeroDivisionError):
-                    return None
-            lin = _linear_fn('lininterp', q, lab, xp, fp, [C('bounds_error=False'), C('fill_value=Marker(numpy.nan)')])
-            lo, hi = mk_fn('at', B(lab, xp), P(Poly())), mk_fn('at', B(lab, xp), P(Poly.const(-1)))
-            r = lin + lt(q, lo) * (ends['left'] - lin)
-            return r + lt(hi, q) * (ends['right'] - r)
-        return None
-    return alg.rebuild(p, f)
+
+def _same(facts, diff):
+    """is the difference zero - as it stands, or with the library's linear interpolation written out the way a hand-written one is (through searchsorted)"""
+    if alg.is_zero(facts.simplify(diff))[0]:
+        return True
+    _, fns_ = alg.leaf_syms(diff)
+    if 'searchsorted' in fns_ and 'lininterp' in fns_:
+        try:
+            return alg.is_zero(facts.simplify(alg.unfold_lininterp(diff)))[0]
+        except RecursionError:
+            return False
+    return False
 
 
 def check_variable(ctx):
@@ -292,7 +278,7 @@ def check_variable(ctx):
         hit = None
         for k in ks:
             ref, facts, parts = variable_reference(k)
-            if tuple(outv.dims) == (N,) and outv.mask is None and alg.is_zero(facts.simplify(outv.poly - ref))[0]:
+            if tuple(outv.dims) == (N,) and outv.mask is None and _same(facts, outv.poly - ref):
                 hit = (k, parts)
                 break
         if hit is not None:
